@@ -421,10 +421,11 @@ Section Ids.
     intros Ho. unfold build. destruct t as [docs|n d ents]; [discriminate|].
     destruct (accumulate nonstr (PDir n d ents)) as [m| | |] eqn:EA; cbn [bind]; try discriminate.
     destruct (mapM (hash_res nonstr) m) as [m1| | |] eqn:EH; cbn [bind]; try discriminate.
-    rewrite pipe_rules_eq.
-    destruct (effective_rules gen_gvk_order_first gen_gvk_order_last gen_nameref_raw) as [rules| | |] eqn:ER;
-      cbn [bind]; try discriminate.
-    destruct (nameref_transform pipe_cs nonstr rules m1) as [m2| | |] eqn:EN; cbn [bind]; try discriminate.
+    destruct pipe_rules as [rules| | |] eqn:ER0; cbn [bind]; try (intros X; discriminate X).
+    assert (ER : effective_rules gen_gvk_order_first gen_gvk_order_last gen_nameref_raw = Ok rules)
+      by (rewrite <- pipe_rules_eq; exact ER0).
+    clear ER0.
+    destruct (nameref_transform pipe_cs nonstr rules m1) as [m2| | |] eqn:EN; cbn [bind]; try (intros X; discriminate X).
     assert (ES : sort_resources o m2 = Ok m2) by (destruct Ho as [->| ->]; reflexivity).
     rewrite ES. cbn [bind]. intros H Hd. inv H.
     apply distinct_ids_strip. eapply Forall2_same_identity_ids; [eapply gen_transform_identity; eauto|].
